@@ -203,8 +203,43 @@ func C08Scenarios() []sched.Scenario {
 	for _, c := range cs {
 		out = append(out, c.scenario())
 	}
-	out = append(out, txnCommitVsSet(), blockReadVsTxnCommit(false, false), blockReadVsTxnCommit(true, false), blockReadVsTxnCommit(false, true), blockReadVsRewrite(), commitVsForgetAndRemoval())
+	out = append(out, txnCommitVsSet(), blockReadVsTxnCommit(false, false), blockReadVsTxnCommit(true, false), blockReadVsTxnCommit(false, true), blockReadVsRewrite(), commitVsForgetAndRemoval(), blockCommitVsTxnCommitIntoIt())
 	return out
+}
+
+// blockCommitVsTxnCommitIntoIt: block B is being committed while a transaction still commits its write into B.
+// The write call returns: the write is then either part of what B published, or still pending in B - never gone.
+func blockCommitVsTxnCommitIntoIt() sched.Scenario {
+	return sched.Scenario{Name: "S19-block-commit-vs-txn-commit-into-it", Doc: "G:k=1 <- A; block B on A (holds j): B.Commit() || txn{Set(k,2); Commit into B} || BlockCache(B).Get(k)",
+		Make: func() ([]func(), func() (string, string)) {
+			sc := statecache.NewStateCache()
+			for _, b := range base {
+				mkBlock(sc, b).Commit()
+			}
+			bc := mkBlock(sc, blk{hash: "B", prev: "A", sets: map[string]string{"j": "y"}})
+			tc := statecache.NewTransactionCache(bc)
+			var seen string
+			bodies := []func(){
+				func() { bc.Commit() },
+				func() { tc.Set("k", statecache.String("2")); tc.Commit() },
+				func() { seen = show(bc.Get("k")) },
+			}
+			judge := func() (string, string) {
+				fail := ""
+				if seen != "1" && seen != "2" && seen != "miss" {
+					fail = "the concurrent read through the block returned " + seen
+				}
+				pub, pend := show(sc.Get("k", "B")), show(bc.Get("k"))
+				if pub != "2" && pend != "2" && fail == "" {
+					fail = fmt.Sprintf("the transaction's commit of k=2 into block B returned, but k=2 is neither published at B (lookup k@B = %s) nor pending in the block (BlockCache(B).Get(k) = %s)", pub, pend)
+				}
+				if pub != "2" && pub != "miss" && pub != "1" && fail == "" {
+					fail = "lookup k@B = " + pub
+				}
+				return fmt.Sprintf("seen=%s published=%s pending=%s", seen, pub, pend), fail
+			}
+			return bodies, judge
+		}}
 }
 
 // commitVsForgetAndRemoval: block P (k=v1) commits while another goroutine first makes the cache forget k
